@@ -65,6 +65,14 @@ CHECKS = {
    technique="TLA+ model of the ReadContext/WriteContext algorithm (MC_NetCtx.tla: NoLeftoverDeadline, EmptyHandedOnlyIfCancelled, PromptReturn) + observable contract spec (CtxOp.tla, Stream.tla); real wrappers over an observable fake connection under the gate scheduler with the cancellation placed at every synchronisation step, plus byte-conservation runs over net.Pipe; traces validated by TLC",
    text="TLC checks the watcher/operation protocol (and that a watcher which does not restore the deadline violates NoLeftoverDeadline). netctx.Conn, netctx.PacketConn and connctx, instrumented with yields, run read and write operations followed by probe operations with live contexts while the environment cancels and feeds data at every possible point (schedules enumerated exhaustively for the 2-operation scenarios); every call, transfer, return (n, error class, deadline register) and quiescence point is validated by TLC: reported n equals bytes transferred, empty-handed only if cancelled, no deadline left behind, no watcher goroutine left, cancelled operations never stay blocked. Stream runs over net.Pipe with seeded cancellations and timeouts on both ends check that the bytes received continue the stream exactly and equal the bytes reported written.",
    note="the fake connection is the harness's; Go's random select choice is uncontrolled (DFS counts vary slightly between runs); packet flavour is exercised on the fake only"),
+ "C02": dict(engine="tlc-trace", design_ref="DESIGN.md §4 C02",
+   technique="TLA+ spec of RFC 4787 mapping (NAT.tla) + TLC MC (ExtInjective, ExtValid) + transition tours, lifetime grid, random multi-endpoint histories and a 16 500-mapping exhaustion history on the real translator in virtual time; traces validated by TLC (Judge=map)",
+   text="TLC checks external-address injectivity/validity on NAT.tla for all 9 NAPT types and 1:1 mode over 2 internal x 3 remote endpoints; the tours, a grid of gaps around the mapping lifetime, seeded histories over 12 internal and 9+ remote endpoints (routers with one or two WAN addresses) and a history that opens more mappings than the dynamic range has ports run on the real newNAT/translateOutbound/translateInbound in virtual time; TLC validates every outbound translation: same key <=> same external address while alive, fresh address valid and not held by a live mapping, refresh on outbound use, drop only when 16384 mappings are alive, payload and destination untouched, 1:1 rewrite with port preserved.",
+   note="in-package binding (names newNAT, translateOutbound, translateInbound, natConfig); inbound results are C03's; end-to-end binding through routers is C01's"),
+ "C03": dict(engine="tlc-trace", design_ref="DESIGN.md §4 C03",
+   technique="same spec and traces as C02, judged for filtering (Judge=filter): inbound admitted iff a live mapping owns the address and the sender matches a recorded permission; forwarded to the mapping's creator; refused inbound changes nothing",
+   text="Inbound datagrams from contacted, same-IP-other-port and never-contacted remotes to live, expired, never-allocated and other-WAN-address targets are interleaved with outbound traffic and clock steps; TLC validates admission, the forwarding target, unchanged source/payload, that inbound traffic never prolongs a mapping, and 1:1 forwarding of paired/unpaired addresses.",
+   note="as C02; external addresses are taken as given in this mode"),
 }
 
 def main():
